@@ -141,6 +141,19 @@ RunResult run_w3(const Plan& pl) {
                 if (L.size() != B.cells.size() + gone) { std::ostringstream d; d << gone << " mothers left, population went from " << B.cells.size() << " to " << L.size(); res.fail(pass ? "C15" : "C09", "division.count", d.str()); }
                 for (auto& c : L) if (c->get_id() >= max_before) { if (c->get_id() >= max_id) res.fail("C08", "id_counter", "a daughter id is not below the advanced id counter"); TopoOpts o; o.volume_before = 1e300; std::string e = check_topology(*c, o); if (!e.empty()) { res.fail("C09", "daughter_" + e.substr(0, e.find(':')), "daughter after cell_divider::run: " + e); break; } }
                 if (max_id != max_before + 2 * gone) res.fail("C08", "id_counter_advance", "id counter did not advance by two per division");
+                // a second division round in a later call: cells of the new population (daughters included) become ready; ids handed out
+                // now must differ from every id handed out before ("dividing several cells ... one after another", "never reused")
+                if (pl.geti("second_round", 0) && res.viol.empty() && !L.empty()) {
+                    std::set<unsigned> before_ids; for (auto& c : L) before_ids.insert(c->get_id()); std::set<unsigned> ever = before_ids; for (auto& mi : M) ever.insert(mi.id);
+                    sim::Rng rr(pl.seed * 131 + 17); int k2 = 1 + (int)rr.below(std::min<size_t>(3, L.size()));
+                    for (int q = 0; q < k2; q++) { cell& c = *L[rr.below(L.size())]; cell_tester::division_volume(c) = 0.5 * c.get_volume(); }
+                    unsigned max2 = max_id; size_t n2 = L.size();
+                    cell_divider::run(L, B.lmin, lmr, max_id, false);
+                    std::set<unsigned> ids2; for (size_t i = 0; i < L.size(); i++) { if (L[i]->get_local_id() != i) { res.fail("C08", "local_id", "position index != list position after the second cell_divider::run"); break; }
+                        if (!ids2.insert(L[i]->get_id()).second) { res.fail("C15", "division.duplicate_id", "two cells share an id after a second round of divisions"); res.fail("C09", "daughter_ids_unique", "two cells share an id after a second round of divisions"); res.fail("C08", "id_unique", "two cells share an id after a second cell_divider::run"); break; }
+                        if (!before_ids.count(L[i]->get_id()) && ever.count(L[i]->get_id())) { res.fail("C08", "id_reused", "a daughter of the second round received an id that was used before"); res.fail("C15", "division.duplicate_id", "an id of the first round was handed out again in the second round"); break; } }
+                    if (L.size() != n2 || max_id != max2) res.probes.hit("second_round_divisions");
+                }
                 std::sort(pop.begin(), pop.end());
                 if (pass == 0) { ref_pop = pop; ref_n = gone; if (gone) res.probes.hit("divisions_in_reference", gone); }
                 else { res.probes.hit("team_division_runs"); if (gone > 1) res.probes.hit("simultaneous_divisions");
@@ -174,6 +187,7 @@ Plan gen_w3(uint64_t seed, const std::string& tier, const std::string& focus) {
     }
     if (mode == 1) { bool any = false; for (int k = 0; k < n; k++) any |= pl.geti("c" + std::to_string(k) + "_mother") != 0; if (!any) pl.p["c0_mother"] = 1; }
     if (r.coin(0.3)) { pl.p["growth_sigma"] = 4e-12; pl.p["div_sigma"] = 1e-16; }
+    if (mode == 1 && r.coin(0.5)) pl.p["second_round"] = 1;
     pl.p["clock"] = (mode == 1) ? 0 : (int)r.below(3);
     draw_schedule(pl, r, 8); if (mode == 1 && pl.geti("team") < 2) pl.p["team"] = r.range(2, 8);
     if (focus == "tsan") { pl.p["mode"] = 1; pl.p["free_running"] = 1; pl.p["team"] = r.range(2, 8); pl.ops.clear(); }
